@@ -556,4 +556,20 @@ theorem permuteMeta_of_perm (p : List Nat) (bs : Shape) (nm : Names) (hp : p.Per
       rw [hlen, List.drop_length, List.append_nil]
 
 
+/-! ### repeat -/
+
+theorem zipWith_mod_inb : ∀ (f : List Nat) (F : Shape), InB f F → List.zipWith (· % ·) f F = f
+  | [], [], _ => rfl
+  | x :: f, d :: F, h => by
+    simp only [InB] at h
+    simp only [List.zipWith_cons_cons, zipWith_mod_inb f F h.2, Nat.mod_eq_of_lt h.1]
+  | [], _ :: _, h => by simp [InB] at h
+  | _ :: _, [], h => by simp [InB] at h
+
+theorem zipWith_mul_ones (F : Shape) : List.zipWith (· * ·) F (List.replicate F.length 1) = F := by
+  induction F with
+  | nil => rfl
+  | cons d F ih => simp [List.replicate_succ, ih]
+
+
 end TdVerif.C02
